@@ -28,6 +28,7 @@ class LiaSolver:
         self.s.set('timeout', timeout_ms)
         self.timeout_ms = timeout_ms
         self.prefer_fresh = False
+        self.xs = None
         if seed:
             self.s.set('random_seed', seed & 0x7fffffff)
         self.zvars = {}
@@ -378,6 +379,8 @@ class LiaSolver:
                     self.s.add(f)
                 r = str(self.s.check())
                 self.last_model = self.s.model() if r == 'sat' else None
+                if self.xs is not None:
+                    self.xs.offer('lia', r, self.s)
             finally:
                 self.s.pop()
         if r not in ('sat', 'unsat'):
@@ -389,6 +392,8 @@ class LiaSolver:
                 s2.add(f)
             r = str(s2.check())
             self.last_model = s2.model() if r == 'sat' else None
+            if self.xs is not None:
+                self.xs.offer('lia', r, s2)
             self.stats['fresh'] = self.stats.get('fresh', 0) + 1
             if r not in ('sat', 'unsat') and os.environ.get('VERIF_LIA_DEBUG'):
                 sys.stderr.write('LIA unknown: %s after %.1fs, %d formulas\n' % (s2.reason_unknown(), time.time() - t0, len(fs)))
